@@ -113,8 +113,9 @@ Print Assumptions C01_model_and_reference_semantics_agree_on_flat_programs.
 
 (* (4) INLINING OF GATE DEFINITIONS, as a theorem about whole programs (Lang/GateDefProofs.v).  `gexpand env0 [] p = Some (q, evs)`
    is a computable judgement on programs whose top level holds includes, register declarations, GATE DEFINITIONS
-       gate g(p1, ...) a, b, ... { basis gates on the formal qubits, possibly under inv / pow(k), their parameters closed
-                                   expressions over literals, constants and the formal parameters }
+       gate g(p1, ...) a, b, ... { basis gates on the formal qubits, possibly under inv / pow(k), and calls of gates defined
+                                   earlier (nested to depth 24), parameters closed expressions over literals, constants
+                                   and the formal parameters }
    under names that are neither defined already nor names of the basis gates, CALLS  g(closed expressions) r[i], r[j], ...;  of defined
    gates on pairwise distinct bits inside their registers, and everything Props/C02.v and Props/C08.v admit (flat operations,
    loops, whole-register operations).  q is the program without the definitions and with every call replaced by the body
@@ -123,23 +124,21 @@ Print Assumptions C01_model_and_reference_semantics_agree_on_flat_programs.
    well-formed flat program (accepted again and a fixpoint of unroll, Props/C03.v), the counts are q's register sizes and the
    depth counters the recurrence over the events of q's operations. *)
 Theorem C01_gate_calls_are_replaced_by_instantiated_bodies fuel p q evs :
-  gexpand env0 [] p = Some (q, evs) -> (ldepth p + 1 < fuel)%nat ->
+  gexpand env0 [] p = Some (q, evs) -> (ldepth p + 1 < fuel)%nat -> (gate_nesting < fuel)%nat ->
   exists o, run_visit false false [] fuel p = Ok o /\ o_stmts o = q /\ wf_flat env0 q = true /\
             num_qubits (o_state o) = total_qubits q /\ num_clbits (o_state o) = total_clbits q /\
             forall r, dof (o_state o) r = depth_after rsrc_eqb evs r.
 Proof. exact (programs_with_gate_definitions_unroll_to_their_expansion fuel p q evs). Qed.
 Print Assumptions C01_gate_calls_are_replaced_by_instantiated_bodies.
 
-(* one call, in any state that knows the definition and is not expanding the gate already *)
-Theorem C01_one_gate_call check_only f env s name gd args vs bs out evs :
-  Regs env s -> sget name (gates s) = Some gd -> smem name (gstack s) = false ->
-  cvals args = Some vs ->
-  List.length vs = List.length (g_params gd) -> List.length bs = List.length (g_qubits gd) ->
-  forallb (in_reg (e_q env)) bs = true -> distinctb [] bs = true ->
-  call_out env gd name vs bs = Some (out, evs) ->
+(* one call, in any state that holds the definitions G and is expanding the gates of stk (the called gate not among them);
+   `gcall n` follows calls of defined gates inside bodies to nesting depth n, instantiating each body in turn *)
+Theorem C01_one_gate_call check_only env G n f stk s name args vs bs out evs :
+  (n <= S f)%nat -> Regs env s -> gates s = G -> gstack s = stk -> cvals args = Some vs ->
+  gcall n env G stk name vs bs = Some (out, evs) ->
   exists s', visit_stmt check_only [] (S (S f)) (SGate [] name args (map qarg_of bs)) s
              = Ok ((if check_only then [] else out), s') /\ DE s s' /\ Dstep s s' evs.
-Proof. exact (custom_call_fix check_only f env s name gd args vs bs out evs). Qed.
+Proof. exact (gcall_fix check_only env G n f stk s name args vs bs out evs). Qed.
 Print Assumptions C01_one_gate_call.
 
 From Coq Require Import ZArith.
@@ -160,3 +159,17 @@ Example C01_gate_definition_example :
   gexpand env0 [] (decls ++ [def; def]) = None /\
   gexpand env0 [] (decls ++ [SGateDef "h" [] ["a"] [SGate [] "x" [] [QId "a"]]]) = None.
 Proof. vm_compute. repeat split; reflexivity. Qed.
+
+(* definitions calling definitions: three levels, parameters passed down through an expression, an inverse inside a body *)
+Example C01_nested_gate_definitions_example :
+  let q k := QIdx "q" [IdxList [IExpr (ELit (VInt k))]] in
+  let decls := [SInclude "stdgates.inc"; SQubitDecl "q" (Some (ELit (VInt 3)))] in
+  let p := decls ++
+     [SGateDef "g1" ["t"] ["a"] [SGate [] "rx" [EId "t"] [QId "a"]; SGate [MInv] "s" [] [QId "a"]];
+      SGateDef "g2" ["u"] ["a"; "b"] [SGate [] "g1" [EBin "*" (EId "u") (ELit (VInt 2))] [QId "b"]; SGate [] "cx" [] [QId "a"; QId "b"]];
+      SGateDef "g3" [] ["a"; "b"; "c"] [SGate [] "g2" [ELit (VInt 3)] [QId "c"; QId "a"]; SGate [] "h" [] [QId "b"]];
+      SGate [] "g3" [] [q 0; q 1; q 2]] in
+  option_map fst (gexpand env0 [] p) =
+    Some (decls ++ [SGate [] "rx" [ELit (VInt 6)] [q 0]; SGate [] "sdg" [] [q 0]; SGate [] "cx" [] [q 2; q 0]; SGate [] "h" [] [q 1]]) /\
+  match unroll_v false [] p, gexpand env0 [] p with Ok o, Some (e, _) => list_eqb stmt_eqb (o_stmts o) e | _, _ => false end = true.
+Proof. vm_compute. split; reflexivity. Qed.
